@@ -515,7 +515,7 @@ class Evaluator:
 
     def binop_hook(self, op, a, b, st, node):
         # 1-D numpy int arrays: elementwise arithmetic with an int scalar (A-NOOVF: no wrap-around)
-        if isinstance(a, VList) and a.nd and isinstance(b, VInt) and isinstance(op, (ast.Add, ast.Sub)):
+        if isinstance(a, VList) and a.nd and isinstance(b, VInt) and isinstance(op, (ast.Add, ast.Sub, ast.Mod)):
             cell = st.heap.lists[a.ref]
             if cell.etype != 'int':
                 return None
@@ -524,7 +524,13 @@ class Evaluator:
             st.assume(n == cell.length)
             k = z3.Int(fresh_name('k'))
             ra = st.heap.lists[res.ref].leaves[0]
-            body = (cell.leaves[0][k] + b.t) if isinstance(op, ast.Add) else (cell.leaves[0][k] - b.t)
+            if isinstance(op, ast.Mod):
+                cb = const_int(b.t)
+                if cb is None or cb <= 0:
+                    return None
+                body = cell.leaves[0][k] % b.t
+            else:
+                body = (cell.leaves[0][k] + b.t) if isinstance(op, ast.Add) else (cell.leaves[0][k] - b.t)
             st.assume(z3.ForAll([k], z3.Implies(z3.And(k >= 0, k < cell.length), ra[k] == body)))
             return res
         return None
@@ -550,9 +556,12 @@ class Evaluator:
             cell = st.heap.lists[arr.ref]
             res, n = st.heap.fresh_list('bool', 'cmp')
             st.assume(n == cell.length)
+            k = z3.Int(fresh_name('k'))
             if not is_num(other):
-                k = z3.Int(fresh_name('k'))
                 st.assume(z3.ForAll([k], z3.Implies(z3.And(k >= 0, k < n), st.heap.lists[res.ref].leaves[0][k] == z3.BoolVal(isinstance(op, ast.NotEq)))))
+            elif cell.etype == 'int':
+                e_ = cell.leaves[0][k] == as_int(other)
+                st.assume(z3.ForAll([k], z3.Implies(z3.And(k >= 0, k < n), st.heap.lists[res.ref].leaves[0][k] == (z3.Not(e_) if isinstance(op, ast.NotEq) else e_))))
             return ('ndbool', VList(res.ref, nd=True))
         if isinstance(op, ast.Eq):
             return self.eq(a, b, st)
